@@ -11,5 +11,7 @@ def main : IO UInt32 :=
     -- the event-based-gateway histories (withdrawn tokens: a flow that ends without reaching an end event)
     | "c06" => C09.checkGrammar params lines
     | "c06loop" => C09.checkGrammar params lines
+    | "c10" => C09.checkGrammar params lines
+    | "c11" => C09.checkGrammar params lines
     | "c09x" => C09.checkShutdown params lines
     | _ => { bad := [s!"unknown family {family}"] })
